@@ -134,9 +134,9 @@ func extractOf(call *ssa.Call, idx int) ssa.Value {
 // holderInfo: which values of fn hold the resource.
 type holderInfo struct {
 	vals        map[ssa.Value]bool
-	cells       map[*ssa.Alloc]bool            // local variable cells that hold it
+	cells       map[*ssa.Alloc]bool               // local variable cells that hold it
 	fields      map[ssa.Value]map[*types.Var]bool // object -> fields holding it
-	ownerStores map[ssa.Instruction]bool       // stores into long-lived owners (receiver/parameter/global fields)
+	ownerStores map[ssa.Instruction]bool          // stores into long-lived owners (receiver/parameter/global fields)
 }
 
 // rootOfAddr walks FieldAddr/IndexAddr chains to the root object and reports the first field on the way.
@@ -659,10 +659,10 @@ func (o *ownership) deferredCloses(pi *pathIndex, d *ssa.Defer, h *holderInfo) b
 }
 
 type leakReport struct {
-	acq    acquisition
-	leaks  []string // exits at which the resource is neither transferred nor released
-	withErr []string // exits returning the live resource together with a non-nil error
-	paths  int
+	acq      acquisition
+	leaks    []string // exits at which the resource is neither transferred nor released
+	withErr  []string // exits returning the live resource together with a non-nil error
+	paths    int
 	unproven string
 }
 
